@@ -22,7 +22,9 @@ def gen_case(rng):
     except ValueError:
         start = datetime(y, m, 28, rng.randrange(24))
     unit = rng.choice(UNITS)
-    c = {"fn": fn, "start": [start.year, start.month, start.day, start.hour], "unit": unit}
+    # a start date that is not on a whole hour is legal: the time line is anchored on it
+    minute = rng.choice([15, 30, 45, 7]) if fn in ("list", "srclist", "linear", "freq", "daily") and rng.random() < 0.25 else 0
+    c = {"fn": fn, "start": [start.year, start.month, start.day, start.hour, minute], "unit": unit}
     if fn in ("list", "srclist"):
         c["vals"] = [round(rng.uniform(0, 50), 2) for _ in range(rng.randint(1, 40))]
     elif fn == "freq":
@@ -82,7 +84,7 @@ def run_real(c):
 
 
 def start_epoch(c):
-    return calendar.timegm((c["start"][0], c["start"][1], c["start"][2], c["start"][3], 0, 0))
+    return calendar.timegm((c["start"][0], c["start"][1], c["start"][2], c["start"][3], c["start"][4] if len(c["start"]) > 4 else 0, 0))
 
 
 def lean_request(c):
